@@ -1747,6 +1747,22 @@ fn refv_lines(rng: &mut Rng, tier: Tier) -> Vec<String> {
             p.options[1] = 2;
             out.push(format!("{} mc:0 {} shape:context.options {}", head, pubs, hex(&p.to_bytes())));
         }
+        // always: the remainder with as many zero coefficients appended / with its upper half dropped (length
+        // prefix consistent): the order of the remainder checks and what exactly is hashed for the commitment
+        {
+            let mut p = base.pt.clone();
+            let l = p.remainder.len();
+            p.remainder.extend(std::iter::repeat(0u8).take(l));
+            if p.remainder.len() <= 65535 {
+                out.push(format!("{} {} {} remresize:fri.remainder {}", head, os, pubs, hex(&p.to_bytes())));
+            }
+            let e = elem_bytes(c.field) * c.opts.ext as usize;
+            if l >= 2 * e && (l / e).is_power_of_two() {
+                let mut p = base.pt.clone();
+                p.remainder.truncate(l / 2);
+                out.push(format!("{} {} {} remresize:fri.remainder {}", head, os, pubs, hex(&p.to_bytes())));
+            }
+        }
         let mut fams = fams;
         fams.push(("shape", 5 * per, shape));
         for (fam, take, mut ms) in fams {
